@@ -98,6 +98,11 @@ func init() {
 			ev.H = lnHint(w.x, w.c.P)
 			g.emit(ev, "pow/witness")
 		}
+		// just below the recorded cut-off band of Exp (|x| > 23000): the results are in range and must be delivered
+		for _, v := range []int64{22950, 22990, 22999, -22990, -22978} {
+			x := finDec(v < 0, big.NewInt(v).Abs(big.NewInt(v)), 0)
+			g.emit(mkA("exp", Ctx{P: []int{9, 12}[g.R.Intn(2)], Emin: -100000, Emax: 100000, R: modeNames[g.R.Intn(8)]}, x, x, 0, "", fresh), "exp/edge")
+		}
 		// precisions 52..60 (the constant tables of ln 10 and 1/ln 10 are used to their full length): operands that need a
 		// range reduction by a power of ten
 		for i := 0; i < g.pick(12, 200); i++ {
